@@ -37,6 +37,8 @@ func checkC08(p *Prog, r *Report) {
 	r.rule("C08.K6", "stream, xor and null ciphers: Decrypt is the same transformation as Encrypt (an involution), and the untransformed part is copied when dst != src", 3)
 	r.rule("C08.K7", "AEAD: Seal is reached only when dst != nil and cap(dst)-len(dst) >= len(plaintext)+Overhead(); its result is stored back into the packet it was sealed from and that packet is read afterwards; Open decrypts into ciphertext[:0]", 5)
 	r.rule("C08.K9", "sealing stays inside the packet buffer: the core MTU a session derives leaves room for the AEAD tag on top of the nonce and FEC header for every requested MTU, the clamped ones included (= C10.M6) — otherwise Seal must reallocate, which aeadCrypt refuses with a panic on the transmit goroutine", 2)
+	r.rule("C08.K10", "a cipher.Block object serves both directions (Encrypt under encMu beside Decrypt under decMu) only if the block methods of its concrete type never write memory reachable from the object; otherwise each direction has its own object (finding F13: gmsm's Sm4Cipher keeps scratch buffers inside the cipher)", 8)
+	r.rule("C08.K11", "the TEA cipher is the 16-round variant the package has always put on the wire: NewTEABlockCrypt builds it with tea.NewCipherWithRounds(key, 16) (x/crypto's default is 64 rounds: a round trip still works, old peers and other implementations do not)", 1)
 	r.rule("C08.K8", "the feedback registers encbuf/decbuf are read and written only under encMu/decMu (C14.L1)", 4)
 
 	// ---- K1: initialVector
@@ -399,6 +401,30 @@ func checkC08(p *Prog, r *Report) {
 
 	// ---- K9
 	delegate(p, r, "C10", checkC10, "C10.M6", "C08.K9")
+
+	// ---- K10
+	checkCipherObjectPerDirection(p, r, "C08.K10")
+
+	// ---- K11
+	{
+		n := 0
+		p.AllCalls(func(call *ast.CallExpr, fi *FuncInfo) {
+			f := p.Callee(call)
+			if f == nil || f.Pkg() == nil || f.Pkg().Path() != "golang.org/x/crypto/tea" {
+				return
+			}
+			n++
+			ok := f.Name() == "NewCipherWithRounds" && len(call.Args) == 2
+			if ok {
+				t := p.Term(call.Args[1])
+				ok = t.IsConst() && t.Int == 16
+			}
+			r.check(ok, "C08.K11", fi.Name, p.Pos(call), "TEA rounds", "tea.NewCipherWithRounds(key, 16)", "the TEA cipher is not built with 16 rounds: encryption and decryption still agree with each other, but the bytes on the wire differ from the package's 16-round TEA in CFB mode — old peers and other implementations cannot talk to this one")
+		})
+		if n == 0 {
+			r.bad("C08.K11", "NewTEABlockCrypt", "-", "TEA rounds", "no constructor call into x/crypto/tea found", "")
+		}
+	}
 
 	// ---- K8
 	{
@@ -987,6 +1013,7 @@ func interpretCFB(p *Prog, fi *FuncInfo, dec bool, bs int64) *cfbResult {
 
 	// ---- prologue: everything before the loop
 	var loop *ast.RangeStmt
+	var floop *ast.ForStmt // the group loop written as `for base+G <= len(src)`
 	var sw *ast.SwitchStmt
 	var nVar, repeatVar, leftVar *types.Var
 	var shiftBits int64 = -1
@@ -999,6 +1026,13 @@ func interpretCFB(p *Prog, fi *FuncInfo, dec bool, bs int64) *cfbResult {
 				ci.errf(s, "second loop")
 			}
 			loop = x
+			stage = 1
+			continue
+		case *ast.ForStmt:
+			if stage != 0 {
+				ci.errf(s, "second loop")
+			}
+			floop = x
 			stage = 1
 			continue
 		case *ast.SwitchStmt:
@@ -1068,7 +1102,14 @@ func interpretCFB(p *Prog, fi *FuncInfo, dec bool, bs int64) *cfbResult {
 	if !res.ivOK && res.ivWhy == "" {
 		res.ivWhy = "no block.Encrypt(register, initialVector) in the prologue"
 	}
-	if ci.base == nil || nVar == nil || repeatVar == nil || leftVar == nil || loop == nil || sw == nil {
+	loopBody := (*ast.BlockStmt)(nil)
+	var loopNode ast.Node
+	if loop != nil {
+		loopBody, loopNode = loop.Body, loop
+	} else if floop != nil {
+		loopBody, loopNode = floop.Body, floop
+	}
+	if ci.base == nil || nVar == nil || (repeatVar == nil && floop == nil) || leftVar == nil || loopBody == nil || sw == nil {
 		res.errs = append(res.errs, cfbErr{p.Pos(fi.Node), "prologue", fmt.Sprintf("structure not recognised (base %v, n %v, repeat %v, left %v, loop %v, switch %v)", ci.base != nil, nVar != nil, repeatVar != nil, leftVar != nil, loop != nil, sw != nil), true})
 		return res
 	}
@@ -1083,15 +1124,53 @@ func interpretCFB(p *Prog, fi *FuncInfo, dec bool, bs int64) *cfbResult {
 
 	// ---- loop: for range repeat
 	ci.where = "loop body"
-	if t := p.Term(loop.X); !(t.Op == "var" && t.Obj == repeatVar) || loop.Key != nil {
-		ci.errf(loop, "the loop does not run exactly n>>3 times")
+	if loop != nil {
+		if t := p.Term(loop.X); !(t.Op == "var" && t.Obj == repeatVar) || loop.Key != nil {
+			ci.errf(loop, "the loop does not run exactly n>>3 times")
+		}
+	} else {
+		// for base+G <= len(src): with base advancing by G per iteration (checked below through the state the body
+		// re-establishes) this runs floor(len(src)/G) times, which is n>>3 exactly when G is eight blocks
+		okForm, verdict := false, ""
+		if floop.Init == nil && floop.Post == nil && floop.Cond != nil {
+			ct := normTerm(p.Term(floop.Cond))
+			if (ct.Op == "<=" || ct.Op == "<") && len(ct.Args) == 2 {
+				d := newLinear()
+				d.addScaled(Lin(ct.Args[1]), 1)
+				d.addScaled(Lin(ct.Args[0]), -1)
+				lenSrc := mk("len", tVar(ci.src))
+				want := newLinear()
+				want.addScaled(Lin(lenSrc), 1)
+				want.addScaled(Lin(tVar(ci.base)), -1)
+				rest := newLinear()
+				rest.addScaled(d, 1)
+				rest.addScaled(want, -1)
+				if nonZeroCoefs(rest) == 0 {
+					g := -rest.C
+					switch {
+					case ct.Op == "<=" && g == 8*bs:
+						okForm = true
+					case ct.Op == "<" && g == 8*bs:
+						verdict = fmt.Sprintf("the group loop runs while base+%d < len(src): when len(src) is an exact multiple of %d the last group of eight blocks is not processed (the switch on n & 7 handles no block then) — %d bytes stay unencrypted/undecrypted", g, 8*bs, 8*bs-bs)
+					default:
+						verdict = fmt.Sprintf("the group loop runs while base+%d %s len(src); eight blocks are %d bytes: the number of groups is not n>>3", g, ct.Op, 8*bs)
+					}
+				}
+			}
+		}
+		if verdict != "" {
+			ci.errf(floop, "%s", verdict)
+		} else if !okForm {
+			res.errs = append(res.errs, cfbErr{p.Pos(floop), "loop", "loop condition not understood", true})
+			return res
+		}
 	}
 	head := st.clone()
 	head.remaining = -1
 	body := head.clone()
 	before := res.steps
 	okBody := true
-	for _, s := range loop.Body.List {
+	for _, s := range loopBody.List {
 		if !ci.exec(body, s) {
 			okBody = false
 			break
@@ -1100,13 +1179,13 @@ func interpretCFB(p *Prog, fi *FuncInfo, dec bool, bs int64) *cfbResult {
 	res.loopSteps = res.steps - before
 	if okBody {
 		if res.loopSteps != 8 {
-			ci.errf(loop, "one loop iteration performs %d block steps, the group size implied by n>>3 / n&7 is 8", res.loopSteps)
+			ci.errf(loopNode, "one loop iteration performs %d block steps, the group size implied by n>>3 / n&7 is 8", res.loopSteps)
 		}
 		// the invariant: same cursor relative to base, same register contents, same register names
 		a, b := head.summary(ci.regs), body.summary(ci.regs)
 		// only the live register matters: the one holding E(C@cursor-bs)
 		if !sameLive(head, body, ci.regs, bs) {
-			ci.errf(loop, "the loop body does not re-establish its entry state: at entry {%s}, after one iteration {%s}", a, b)
+			ci.errf(loopNode, "the loop body does not re-establish its entry state: at entry {%s}, after one iteration {%s}", a, b)
 		}
 	}
 
@@ -1198,7 +1277,26 @@ func sameLive(a, b *cfbState, regs []*types.Var, bs int64) bool {
 // unrolled routines slice (encbuf: one block, decbuf: two) — they are guarded by different mutexes (encMu / decMu), so
 // memory shared between them is accessed concurrently by an encryptor and a decryptor. Shared by C08.K5 and C14.L9.
 func checkCipherScratch(p *Prog, r *Report, rule string) {
+	// the function that builds the cipher object: the one holding the blockCrypt literal (newBlockCrypt, or a
+	// constructor it forwards to)
 	fi := p.FuncByName("newBlockCrypt")
+	for _, cand := range p.funcs {
+		if cand.Body == nil || cand.Lit != nil {
+			continue
+		}
+		has := false
+		ast.Inspect(cand.Body, func(n ast.Node) bool {
+			if cl, ok := n.(*ast.CompositeLit); ok {
+				if nt, okN := derefNamed(p.Info.TypeOf(cl)); okN && nt.Obj().Name() == "blockCrypt" && nt.Obj().Pkg() == p.Types {
+					has = true
+				}
+			}
+			return true
+		})
+		if has {
+			fi = cand
+		}
+	}
 	okE, okD := false, false
 	ast.Inspect(fi.Body, func(n ast.Node) bool {
 		kv, ok := n.(*ast.KeyValueExpr)
